@@ -56,6 +56,13 @@ def gen_case(seed, tier):
     return gen_case_i(seed, tier, seed % 4)
 
 
+def rtlil_target_width(t, sigs):
+    from dsim.refint import shape_of
+    if t[0] == "cat":
+        return sum(rtlil_target_width(p, sigs) for p in t[1])
+    return shape_of(t, sigs)[0]
+
+
 def _classify(e):
     return "rtlil_unreadable" if isinstance(e, rtlil_eval.Unreadable) else "rtlil_does_not_settle"
 
@@ -86,11 +93,15 @@ def run_prog(case, res, stats):
         raise Violation("register_initial_value_undefined", -1, {"wires": [list(x) for x in D.ff_without_init[:4]]})
     # port directions must be as the design implies
     assigned = set()
+    assigned_zero = set()
 
     def walk_stmts(stmts):
         for st in stmts:
             if st[0] == "assign":
-                assigned.update(progen._target_sigs(st[2]))
+                if rtlil_target_width(st[2], sigs) > 0:
+                    assigned.update(progen._target_sigs(st[2]))
+                else:
+                    assigned_zero.update(progen._target_sigs(st[2]))    # a zero-width target drives nothing
             elif st[0] == "if":
                 for c, b in st[1]:
                     walk_stmts(b)
@@ -116,7 +127,8 @@ def run_prog(case, res, stats):
             raise Violation("port_missing", -1, {"port": name, "signal": i})
         kind = D.top_ports[name][1]
         want = "input" if (sigs[i]["role"] in ("input", "ctl") or i not in assigned) else "output"
-        if kind != want:
+        if kind != want and not (i in assigned_zero and i not in assigned):
+            # (a signal whose only assignments have zero-width targets may be emitted either way)
             raise Violation("port_direction", -1, {"port": name, "emitted": kind, "expected": want})
         if sigs[i]["role"] == "driven" and kind == "input":
             # a signal nothing assigns is an input of the emitted design: feed it its constant value
